@@ -23,6 +23,7 @@ type poolScn struct {
 	progs    []string // one per submitter thread; "" = main submits itself
 	round2   string   // tasks the main thread submits after the first Wait
 	selfWait bool     // single submitter: submitter itself interleaves Wait after each Submit
+	limit    bool     // C08: check that never more than max(w,1) tasks are in flight
 }
 
 func (p poolScn) name() string {
@@ -36,6 +37,8 @@ type poolObs struct {
 	vars              []*core.Var[int]
 	submitRet         []core.Cell[bool]
 	workersSeen       int
+	inflight          core.Cell[int]
+	order             []int // outcome label only: +k task k started, -k finished
 }
 
 func (p poolScn) scenario(bound int) Scenario {
@@ -56,12 +59,30 @@ func (p poolScn) scenario(bound int) Scenario {
 			return func() {
 				o.started[k].Set(o.started[k].Get() + 1)
 				core.Logf("task %d start", k)
+				o.order = append(o.order, k+1)
+				if p.limit {
+					in := o.inflight.Get() + 1
+					o.inflight.Set(in)
+					lim := p.w
+					if lim <= 0 {
+						lim = 1
+					}
+					if in > lim {
+						core.Problem("%d tasks in flight on a pool of %d worker(s)", in, p.w)
+					}
+					defer func() {
+						if !core.Aborting() {
+							o.inflight.Set(o.inflight.Get() - 1)
+						}
+					}()
+				}
 				if kind == 'y' {
 					core.Yield()
 				}
 				o.vars[k].Store(k + 1)
 				o.finished[k].Set(o.finished[k].Get() + 1)
 				core.Logf("task %d end", k)
+				o.order = append(o.order, -k-1)
 			}
 		}
 		waitAndCheck := func(who string) {
@@ -157,10 +178,9 @@ func (p poolScn) scenario(bound int) Scenario {
 		}
 		// outcome: the order in which tasks started and finished
 		var sb strings.Builder
-		for _, l := range x.Log {
-			if i := strings.Index(l, "task "); i >= 0 {
-				sb.WriteString(l[i+5:])
-				sb.WriteByte(';')
+		if o != nil {
+			for _, e := range o.order {
+				fmt.Fprintf(&sb, "%d;", e)
 			}
 		}
 		return sb.String(), pr
